@@ -21,6 +21,8 @@ def c17c_occurs (n : String) : Ty → Bool
   | .annotated t _ => c17c_occurs n t
   | .tupleLit ts => c17c_occurss n ts
   | .cls _ ts => c17c_occurss n ts
+  -- a struct type literal `{'a': T}`: the values are inspected (they are substituted since the D-fix of `replace_typevars`)
+  | .structLit _ ts => c17c_occurss n ts
   | _ => false
 def c17c_occurss (n : String) : List Ty → Bool
   | [] => false
@@ -120,7 +122,8 @@ theorem c17c_subst_complete (σ : List (String × Ty)) (hσ : c17c_closed σ) : 
   | .literal _, _, _ => by simp only [substTy, c17c_occurs]
   | .enum _, _, _ => by simp only [substTy, c17c_occurs]
   | .sub _ _, _, _ => by simp only [substTy, c17c_occurs]
-  | .structLit _ _, _, _ => by simp only [substTy, c17c_occurs]
+  | .structLit ns ts, m, hm => by
+    rw [c17_subst_structLit]; simp only [c17c_occurs]; exact c17c_substs_complete σ hσ ts m hm
   | .pattern _, _, _ => by simp only [substTy, c17c_occurs]
   | .ndarray, _, _ => by simp only [substTy, c17c_occurs]
   | .forwardRef _, _, _ => by simp only [substTy, c17c_occurs]
@@ -174,6 +177,20 @@ example : c17c_occurs "T" (.cls "Other" [.typeVar "T" none []]) = true := by
 
 /-- the substituted type, explicitly -/
 example : substTy [("T", .scalar "int")] (.cls "Other" [.typeVar "T" none []]) = .cls "Other" [.scalar "int"] := by
+  simp [substTy, substTys, List.lookup]
+
+/-- (c) struct type literals are INSIDE the covered fragment: `T` occurs in `{'a': T, 'b': List[T]}` … -/
+example : c17c_occurs "T" (.structLit ["a", "b"] [.typeVar "T" none [], .seq "list" (some (.typeVar "T" none []))]) = true := by
+  simp [c17c_occurs, c17c_occurss]
+
+/-- … and is gone after the substitution (an instance of the theorem, and by computation) -/
+example : c17c_occurs "T" (substTy [("T", .scalar "int")]
+    (.structLit ["a", "b"] [.typeVar "T" none [], .seq "list" (some (.typeVar "T" none []))])) = false := by
+  simp [substTy, substTys, List.lookup, c17c_occurs, c17c_occurss]
+
+example : substTy [("T", .scalar "int")]
+    (.structLit ["a", "b"] [.typeVar "T" none [], .seq "list" (some (.typeVar "T" none []))]) =
+    .structLit ["a", "b"] [.scalar "int", .seq "list" (some (.scalar "int"))] := by
   simp [substTy, substTys, List.lookup]
 
 #print axioms c17c_subst_complete
